@@ -349,6 +349,15 @@ def build(s: dict, ch: Optional[dict] = None, rng: Optional[random.Random] = Non
             rng.shuffle(groups)
         return groups
 
+    def layer_chunks(lay):
+        fl = lay["flags"] | (rng.choice([0, 0x80, 0xFF80]) if ch["unused"] else 0)
+        out = [ase.LayerChunk(flags=fl, ltype=lay["ltype"], level=lay["level"], blend=lay["blend"],
+                              opacity=lay["opacity"], name=lay["name"], tileset=lay["tileset"],
+                              default_w=lay["default_w"], default_h=lay["default_h"], reserved=junk(3))]
+        if lay["ud"]:
+            out.append(ud_chunk(lay["ud"]))
+        return out
+
     for f in range(nframes):
         chunks: List[ase.Chunk] = []
         if f == 0:
@@ -389,13 +398,11 @@ def build(s: dict, ch: Optional[dict] = None, rng: Optional[random.Random] = Non
                                                compressed_len_override=rng.randrange(2 ** 32) if ch["unused"] else None))
             if ext_chunk is not None and ch.get("ext_late"):
                 chunks.append(ext_chunk)
-            for lay in s["layers"]:
-                fl = lay["flags"] | (rng.choice([0, 0x80, 0xFF80]) if ch["unused"] else 0)
-                chunks.append(ase.LayerChunk(flags=fl, ltype=lay["ltype"], level=lay["level"], blend=lay["blend"],
-                                             opacity=lay["opacity"], name=lay["name"], tileset=lay["tileset"],
-                                             default_w=lay["default_w"], default_h=lay["default_h"], reserved=junk(3)))
-                if lay["ud"]:
-                    chunks.append(ud_chunk(lay["ud"]))
+            late = ch.get("late_layers") if nframes >= 2 else None
+            for li_, lay in enumerate(s["layers"]):
+                if late is not None and li_ >= late:
+                    break      # these layer chunks are written at the start of frame 1 (the caller guarantees they have no cel in frame 0)
+                chunks.extend(layer_chunks(lay))
             if s["has_tags_chunk"]:
                 chunks.append(ase.TagsChunk(tags=[ase.Tag(from_=t["from"], to=t["to"], direction=t["dir"], repeat=t["repeat"],
                                                           name=t["name"], color=t["color"], reserved=junk(6)) for t in s["tags"]],
@@ -412,6 +419,9 @@ def build(s: dict, ch: Optional[dict] = None, rng: Optional[random.Random] = Non
                                                                 center=k["center"], pivot=k["pivot"]) for k in sl["keys"]]))
                 if sl["ud"]:
                     chunks.append(ud_chunk(sl["ud"]))
+        if f == 1 and ch.get("late_layers") is not None:
+            for lay in s["layers"][ch["late_layers"]:]:
+                chunks.extend(layer_chunks(lay))
         for g in cel_chunks(f):
             chunks.extend(g)
         dc = decorate(chunks)
